@@ -171,9 +171,14 @@ PROPS["C19"] = dict(
           dict(pkg="./sinks/writer", harness=["sinks/writer.go", "sinks/writer_c19.go"], entries=r"^H_C19_", params=dict(quick=dict(F=2), thorough=dict(F=2))),
           dict(pkg="./filters/gated", harness=["gated/gated.go", "gated/c19.go"], entries=r"^H_C19_", params=dict(quick={}, thorough={}), shards=dict(quick=4, thorough=8)),
           dict(pkg="./sinks/channel", harness=["sinks/channel.go", "sinks/channel_c19.go"], entries=r"^H_C19_", params=dict(quick={}, thorough={})),
+          # "no corrupted output": concurrent senders through one gated.Filter hand every accepted event to exactly one composition
+          dict(pkg="./filters/gated", harness=["gated/gated.go", "gated/concurrent.go"], entries=r"^H_C11_concurrent$", params=dict(quick=dict(G=2, E=2, GC=1, EC=1), thorough=dict(G=3, E=2, GC=2, EC=2)), shards=dict(quick=16, thorough=16),
+               maxswitches=dict(quick=3, thorough=4), instrument_locks=True),
+          # ... and two concurrent writers through one FileSink leave each event once and whole
+          dict(harness=BROKER_H, entries=r"^H_C08_concurrent_writers$", params=dict(quick={}, thorough={}), shards=dict(quick=4, thorough=8), maxswitches=dict(quick=3, thorough=5), instrument_locks=True),
           dict(pkg="./formatter_filters/cloudevents", harness=["cloudevents/cloudevents.go", "cloudevents/c19.go"], entries=r"^H_C19_|^H_C18_two_events$", params=dict(quick=dict(T=1), thorough=dict(T=1))),
           dict(dir=REPO + "/filters/encrypt", harness=["encrypt/common.go", "encrypt/helpers_sym.go", "encrypt/helpers_native.go", "encrypt/c16.go", "encrypt/c09.go", "encrypt/c19.go"], entries=r"^H_C19_", params=dict(quick={}, thorough={}), shards=dict(quick=4, thorough=8))],
-    must_reach=["C19.core.end", "C19.table.end", "C19.writer.end", "C19.gated.end", "C19.cloudevents.end", "C19.filesink.end", "C19.encrypt.end", "C19.channel.end"],
+    must_reach=["C19.core.end", "C19.table.end", "C19.writer.end", "C19.gated.end", "C19.cloudevents.end", "C19.filesink.end", "C19.encrypt.end", "C19.channel.end", "C11.concurrent.end", "C08.concurrent.end"],
     bounds=dict(quick="pairwise (a data race is a pairwise notion); one shared Event; node instances shared or not", thorough="same"),
     assumptions=["public configuration fields that the library never writes are read-only by contract", "channel operations themselves are race-free by the language definition"],
     trusted_base=COMMON_TRUST,
@@ -198,13 +203,13 @@ ENC_DIR = REPO + "/filters/encrypt"
 PROPS["C16"] = dict(
     level="other",
     explanation="Filter.encrypt, Filter.hmacSha256, Rotate, the rotation-payload branch of Process, NewEventWrapper, NewDerivedReader and derivedKeyId executed symbolically with every cryptographic leaf (aead.Wrapper Encrypt/KeyBytes/KeyId, hkdf.New, io.ReadFull of the derived reader, hmac, ed25519.GenerateKey, proto.Marshal, base64) an uninterpreted deterministic function of its inputs: the output must be exactly enc / HMAC under the wrapper, salt and info in force (per-event values first), Rotate / rotation payloads install the new material (copied, not aliased) and the next value uses it; the per-event wrapper is a function of (filter wrapper key, event id) only. Plus histories of events, events with an id (per-event salt/info nil or set), Rotate and rotation payloads with any subset of the material against a model of what is in force (H_C16_history_vs_model), the caller's earlier salt/info slices are never written, and the C09 shape harnesses (values protected through struct fields, map entries and pointer tags are the right function of the original bytes).",
-    jobs=[dict(dir=ENC_DIR, harness=ENC_H, entries=r"^H_C16_(encrypt|hmac|rotate|event_wrapper|event_id_across_rotation)$", params=dict(quick={}, thorough={}), shards=dict(quick=4, thorough=8)),
+    jobs=[dict(dir=ENC_DIR, harness=ENC_H, entries=r"^H_C16_(encrypt|hmac|rotate|event_wrapper|event_id_across_rotation|event_material_everywhere)$", params=dict(quick={}, thorough={}), shards=dict(quick=4, thorough=8)),
           # values protected through the payload walkers (struct fields, map entries, pointer tags) are the right function of the
           # original bytes as well: the C09 shape harnesses assert "exactly enc / HMAC of the original under the material in force"
           dict(dir=ENC_DIR, harness=ENC_H + ["encrypt/c09.go"], entries=r"^H_C09_(struct|toplevel)$", params=dict(quick={}, thorough={}), shards=dict(quick=8, thorough=16)),
           dict(dir=ENC_DIR, harness=ENC_H, entries=r"^H_C16_history_vs_model$", params=dict(quick=dict(H=3), thorough=dict(H=4)), shards=dict(quick=16, thorough=16), maxpaths=400000),
           dict(dir=ENC_DIR, harness=ENC_H, entries=r"^H_C16_process_vs_rotate$", params=dict(quick={}, thorough={}), shards=dict(quick=4, thorough=8), maxswitches=dict(quick=3, thorough=5), instrument_locks=True)],
-    must_reach=["C16.encrypt.ok", "C16.encrypt.rejected", "C16.hmac.ok", "C16.hmac.rejected", "C16.rotate.end", "C16.eventwrapper.ok", "C16.eventwrapper.rejected", "C16.rotation.end", "C16.eventid.end", "C16.history.end", "C09.struct.ok", "C09.toplevel.ok"],
+    must_reach=["C16.encrypt.ok", "C16.encrypt.rejected", "C16.hmac.ok", "C16.hmac.rejected", "C16.rotate.end", "C16.eventwrapper.ok", "C16.eventwrapper.rejected", "C16.rotation.end", "C16.eventid.end", "C16.history.end", "C16.everywhere.end", "C09.struct.ok", "C09.toplevel.ok"],
     bounds=dict(quick="salt/info nil or 0..2 arbitrary bytes; data any string; histories of 3 operations (event, event with id, Rotate / rotation payload with any subset of wrapper, salt, info)", thorough="same; histories of 4 operations"),
     assumptions=["AES-GCM decrypts to the plaintext, HKDF and HMAC-SHA256 compute the standard functions, ed25519 key derivation: trusted primitives (uninterpreted)", "concurrent rotation: see the lockset/interleaving jobs"],
     trusted_base=COMMON_TRUST + ["engine/symex/cryptomodel.go contracts"],
